@@ -130,6 +130,7 @@ package http
 // only on a 200 answer, the announced count only on a 206 answer, zero on every other failure (the
 // broker then asks the receiver, see handleSendError).
 //@ func (*Client).Transmit
+//@   before call sts.Payload.EncodeHeader assert compressor-belongs-to-this-request: (gz != nil ==> called(compress/gzip.NewWriterLevel) && gz == lastret(compress/gzip.NewWriterLevel, 0) && lastret(compress/gzip.NewWriterLevel, 1) == nil) && (gz == nil ==> h.Compression == gzip.NoCompression)
 //@   on return assert failure-count-comes-from-the-receiver: err != nil ==> n == 0 || (called((*BandwidthLoggingClient).Do) && lastret((*BandwidthLoggingClient).Do, 1) == nil && resp.StatusCode == 206 && called(strconv.Atoi) && n == lastret(strconv.Atoi, 0))
 //@   on return assert success-needs-200: err == nil ==> called((*BandwidthLoggingClient).Do) && lastret((*BandwidthLoggingClient).Do, 1) == nil && resp.StatusCode == 200 && called(sts.Payload.GetParts) && n == len(lastret(sts.Payload.GetParts, 0))
 //@   modifies everything
